@@ -1708,7 +1708,7 @@ Lemma step_emission s o s' p : ms_inv s -> mux_step_part s o = (s', p) -> pa_res
                                   ((data_forced s d || (ms_period s <=? ms_retransmit s + 1)) = true -> pa_pkts p = [])
                       | None => s' = s /\ pa_pkts p = []
                       end
-    | _ => ms_retransmit s' = ms_retransmit s
+    | _ => ms_retransmit s' = ms_retransmit s /\ muxer_pkts o p = []
     end)).
 Proof.
   intros Hinv Hstep Hnp Hen.
@@ -1738,4 +1738,216 @@ Proof.
     + unfold write_data in Hstep. rewrite Ef in Hstep. pinj Hstep. split; [reflexivity|right].
       unfold no_emission. cbn. rewrite orb_false_r. repeat split; reflexivity.
   - pinj Hstep. split; [reflexivity|right]. unfold no_emission. cbn. rewrite orb_false_r. repeat split; reflexivity.
+Qed.
+
+(* ---------------- C17 over runs ---------------- *)
+
+Lemma next_version_snd v u : snd (next_version v u) = wrappingCounter_value (fst (next_version v u)).
+Proof. unfold next_version. destruct u; cbn [fst snd]; [apply inc_is_value|reflexivity]. Qed.
+
+Lemma step_starts_with_tables s o s' p : ms_inv s -> mux_step_part s o = (s', p) -> pa_res p <> Panic -> op_entry_ok o ->
+  starts_with_tables (muxer_pkts o p) = true -> emission s s' (muxer_pkts o p).
+Proof.
+  intros Hinv Hstep Hnp Hen Hst.
+  destruct (step_emission _ _ _ _ Hinv Hstep Hnp Hen) as (_ & [(Hem & _)|((Hno & _) & _)]); [exact Hem|congruence].
+Qed.
+
+(* C17_content *)
+Theorem emission_content period ops o s' p :
+  let s := fst (mux_run_parts (new_muxer period) ops) in
+  no_panic (snd (mux_run_parts (new_muxer period) ops)) -> Forall op_entry_ok ops -> op_entry_ok o ->
+  mux_step_part s o = (s', p) -> pa_res p <> Panic -> starts_with_tables (muxer_pkts o p) = true ->
+  exists ppay mpay rest,
+    muxer_pkts o p = table_packet C_PIDPAT (wrappingCounter_inc (ms_pat_cc s)) ppay ::
+                     table_packet C_pmtStartPID (wrappingCounter_inc (ms_pmt_cc s)) mpay :: rest /\
+    write_psi_data (psi_of_section (pat_section (wrappingCounter_value (ms_pat_version s')))) = Ok ppay /\
+    write_psi_data (pmt_psi (ms_streams s) (ms_pcr_pid s) (wrappingCounter_value (ms_pmt_version s'))) = Ok mpay /\
+    stream_pid_in (ms_pcr_pid s) (ms_streams s) = true.
+Proof.
+  intros s Hnp Hen Ho Hstep Hp Hst.
+  assert (Hinv : ms_inv s) by (apply run_inv; [apply new_muxer_inv|assumption|assumption]).
+  destruct (step_starts_with_tables _ _ _ _ Hinv Hstep Hp Ho Hst) as (ppay & mpay & rest & H1 & H2 & H3 & H4 & H5 & H6 & _).
+  exists ppay, mpay, rest. rewrite H5, H6, <- !next_version_snd. repeat split; assumption.
+Qed.
+
+(* C17_period: WriteData on an added PID *)
+Theorem period_rule period ops d s' p :
+  let s := fst (mux_run_parts (new_muxer period) ops) in
+  no_panic (snd (mux_run_parts (new_muxer period) ops)) -> Forall op_entry_ok ops -> op_entry_ok (MWriteData d) ->
+  mux_step_part s (MWriteData d) = (s', p) -> pa_res p <> Panic -> es_mem (MuxerData_PID d) (ms_es s) = true ->
+  let due := data_forced s d || (ms_period s <=? ms_retransmit s + 1) in
+  ms_period s' = ms_period s /\
+  (due = false -> starts_with_tables (pa_pkts p) = false /\ ms_retransmit s' = ms_retransmit s + 1) /\
+  (due = true -> (starts_with_tables (pa_pkts p) = true /\ ms_retransmit s' = 0) \/
+                 ((exists c, pa_res p = Err c) /\ pa_pkts p = [] /\ ms_retransmit s' = ms_retransmit s + 1)).
+Proof.
+  intros s Hnp Hen Ho Hstep Hp Hmem due.
+  assert (Hinv : ms_inv s) by (apply run_inv; [apply new_muxer_inv|assumption|assumption]).
+  rewrite es_mem_find in Hmem. destruct (es_find (MuxerData_PID d) (ms_es s)) as [ctx|] eqn:Ef; [|discriminate].
+  cbn [mux_step_part] in Hstep. cbn [op_entry_ok] in Ho.
+  destruct (write_data_tables _ _ _ _ ctx Hinv Hstep Hp Ho Ef) as (Hper & [(Hd & Hne & Hr)|[(Hd & Hc & Hp0 & Hne & Hr)|(Hd & Hem & Hr)]]);
+    fold due in Hd; split; try exact Hper; rewrite Hd; split; intros Hx; try discriminate.
+  - destruct Hne as (Hst & _). cbn [muxer_pkts] in Hst. split; assumption.
+  - right. repeat split; assumption.
+  - left. destruct Hem as (ppay & mpay & rest & -> & _). split; [reflexivity|exact Hr].
+Qed.
+
+(* ... and no other call touches the retransmit counter or the period *)
+Theorem period_counter period ops o s' p :
+  let s := fst (mux_run_parts (new_muxer period) ops) in
+  no_panic (snd (mux_run_parts (new_muxer period) ops)) -> Forall op_entry_ok ops -> op_entry_ok o ->
+  mux_step_part s o = (s', p) -> pa_res p <> Panic ->
+  ms_period s' = ms_period s /\
+  match o with
+  | MWriteData d => es_mem (MuxerData_PID d) (ms_es s) = false -> ms_retransmit s' = ms_retransmit s
+  | _ => ms_retransmit s' = ms_retransmit s
+  end.
+Proof.
+  intros s Hnp Hen Ho Hstep Hp.
+  assert (Hinv : ms_inv s) by (apply run_inv; [apply new_muxer_inv|assumption|assumption]).
+  destruct (step_emission _ _ _ _ Hinv Hstep Hp Ho) as (Hper & Hcases). split; [exact Hper|].
+  destruct o as [es|q|q| |d|pk]; try (destruct Hcases as [(_ & _ & H)|(_ & H & _)]; exact H).
+  intros Hmem. rewrite es_mem_find in Hmem. destruct (es_find (MuxerData_PID d) (ms_es s)) eqn:Ef; [discriminate|].
+  cbn [mux_step_part] in Hstep. unfold write_data in Hstep. rewrite Ef in Hstep. pinj Hstep. reflexivity.
+Qed.
+
+(* C17_first *)
+Lemma tables_first_run : forall ops s, ms_inv s -> ms_period s <= ms_retransmit s ->
+  no_panic (snd (mux_run_parts s ops)) -> Forall op_entry_ok ops ->
+  tables_first (combine ops (snd (mux_run_parts s ops))).
+Proof.
+  induction ops as [|o r IH]; intros s Hinv Hret Hnp Hen; [exact I|].
+  rewrite mux_run_parts_cons in *. cbn [fst snd combine tables_first] in *.
+  inversion Hnp as [|x xs Hp Hnp']; subst. inversion Hen as [|y ys Ho Hen']; subst.
+  destruct (mux_step_part s o) as [s1 p] eqn:E. cbn [fst snd] in *.
+  pose proof (step_inv _ _ _ _ Hinv E Hp Ho) as Hinv1.
+  destruct (step_emission _ _ _ _ Hinv E Hp Ho) as (Hper & [(Hem & _)|(Hne & Hrest)]).
+  - destruct Hem as (ppay & mpay & rest & -> & _). reflexivity.
+  - assert (Hnil : muxer_pkts o p = [] /\ ms_period s1 <= ms_retransmit s1).
+    { destruct o as [es|q|q| |d|pk]; try (destruct Hrest as [Hr Hn]; split; [exact Hn|lia]).
+      cbn [muxer_pkts]. destruct (es_find (MuxerData_PID d) (ms_es s)).
+      - destruct Hrest as [Hr Hn]. split; [|lia]. apply Hn. apply orb_true_iff. right. lia.
+      - destruct Hrest as [-> Hn]. split; [exact Hn|lia]. }
+    destruct Hnil as [-> Hret1]. apply IH; assumption.
+Qed.
+
+Theorem tables_first_thm period ops :
+  no_panic (snd (mux_run_parts (new_muxer period) ops)) -> Forall op_entry_ok ops ->
+  tables_first (combine ops (snd (mux_run_parts (new_muxer period) ops))).
+Proof. intros Hnp Hen. apply tables_first_run; try assumption; [apply new_muxer_inv|cbn; lia]. Qed.
+
+(* C17_version *)
+Definition ver_wf (c : wrappingCounter) : Prop := wrappingCounter_wrapAt c = 31 /\ 0 <= wrappingCounter_value c <= 32.
+
+Lemma ver_next v u : ver_wf v -> ver_wf (fst (next_version v u)) /\
+  (wrappingCounter_value v <= 31 ->
+   wrappingCounter_value (fst (next_version v u)) = if u then (wrappingCounter_value v + 1) mod 32 else wrappingCounter_value v) /\
+  (u = true -> wrappingCounter_value (fst (next_version v u)) <= 31).
+Proof.
+  intros [Hw Hv]. unfold next_version. destruct u; cbn [fst]; [|split; [split; assumption|split; [reflexivity|discriminate]]].
+  unfold wrappingCounter_inc_st, ver_wf. cbn. rewrite Hw.
+  destruct (wrappingCounter_value v + 1 >? 31) eqn:E; cbn; rewrite ?Hw.
+  - repeat split; try lia. intros H. assert (wrappingCounter_value v = 31) as -> by lia. reflexivity.
+  - repeat split; try lia. intros H. rewrite Z.mod_small; lia.
+Qed.
+
+Definition ver_inv (s : mstate) : Prop := ver_wf (ms_pat_version s) /\ ver_wf (ms_pmt_version s).
+
+Lemma step_ver_inv s o s' p : ms_inv s -> ver_inv s -> mux_step_part s o = (s', p) -> pa_res p <> Panic -> op_entry_ok o -> ver_inv s'.
+Proof.
+  intros Hinv [H1 H2] Hstep Hnp Hen.
+  destruct (step_emission _ _ _ _ Hinv Hstep Hnp Hen) as (_ & [(Hem & _)|((_ & E1 & E2 & _) & _)]).
+  - destruct Hem as (? & ? & ? & _ & _ & _ & _ & E1 & E2 & _). split; [rewrite E1|rewrite E2]; apply ver_next; assumption.
+  - split; [rewrite E1|rewrite E2]; assumption.
+Qed.
+
+(* once tables have been emitted: PAT version fixed, PMT version = last emitted, flags = "content changed since" *)
+Lemma emissions_rule : forall ops s ch c0 lastpat lastpmt, ms_inv s -> ver_inv s ->
+  ms_pm_updated s = false -> ms_pmt_updated s = ch ->
+  wrappingCounter_value (ms_pat_version s) = lastpat -> wrappingCounter_value (ms_pmt_version s) = lastpmt -> lastpmt <= 31 ->
+  no_panic (snd (mux_run_parts s ops)) -> Forall op_entry_ok ops ->
+  version_rule ((c0, lastpat, lastpmt) :: emissions s ops ch).
+Proof.
+  induction ops as [|o r IH]; intros s ch c0 lastpat lastpmt Hinv Hver Hpm Hpmt Hpat Hpv Hle Hnp Hen; [exact I|].
+  rewrite mux_run_parts_cons in Hnp. cbn [snd] in Hnp. cbn [emissions].
+  inversion Hnp as [|x xs Hp Hnp']; subst x xs. inversion Hen as [|y ys Ho Hen']; subst y ys.
+  destruct (mux_step_part s o) as [s1 p] eqn:E. cbn [fst snd] in *.
+  pose proof (step_inv _ _ _ _ Hinv E Hp Ho) as Hinv1. pose proof (step_ver_inv _ _ _ _ Hinv Hver E Hp Ho) as Hver1.
+  destruct Hver as [Hv1 Hv2].
+  destruct (step_emission _ _ _ _ Hinv E Hp Ho) as (_ & [(Hem & Hcc & _)|((Hst & E1 & E2 & E3 & E4) & _)]).
+  - destruct Hem as (ppay & mpay & rest & Hpk & _ & _ & _ & E1 & E2 & E3 & E4 & _).
+    rewrite Hpk, table_packet_pids, Hcc, orb_false_r. cbn [version_rule].
+    destruct (ver_next (ms_pmt_version s) (ms_pmt_updated s) Hv2) as (_ & Hnv & Hnle).
+    rewrite E1, E2, Hpm, Hpmt. cbn [next_version fst]. split; [exact Hpat|]. split.
+    + rewrite Hpmt in Hnv. rewrite Hnv by lia. rewrite Hpv. reflexivity.
+    + apply IH; try assumption; try reflexivity.
+      * rewrite E1, Hpm. reflexivity.
+      * rewrite E2, Hpmt. reflexivity.
+      * rewrite Hpmt in Hnle. destruct ch; [apply Hnle; reflexivity|]. cbn [next_version fst]. lia.
+  - rewrite Hst. apply IH; try assumption; try congruence.
+Qed.
+
+(* before the first emission: the PMT version is still the initial 32 only while the flag is set or no stream exists *)
+Definition ver_fresh (s : mstate) : Prop :=
+  ms_pmt_updated s = true \/ wrappingCounter_value (ms_pmt_version s) <= 31 \/ ms_streams s = [].
+
+Lemma step_streams s o s' p : mux_step_part s o = (s', p) -> pa_res p <> Panic ->
+  ms_streams s' = ms_streams s \/ ms_pmt_updated s' = true.
+Proof.
+  intros Hstep Hnp. destruct o as [es|q|q| |d|pk]; cbn [mux_step_part] in Hstep.
+  - unfold add_es in Hstep. destruct (negb _); [destruct (stream_pid_in _ _)|destruct (next_free_pid _ _ _)]; pinj Hstep;
+      first [left; reflexivity|right; reflexivity].
+  - unfold remove_es in Hstep. destruct (stream_pid_in _ _); pinj Hstep; first [left; reflexivity|right; reflexivity].
+  - pinj Hstep. left; reflexivity.
+  - left. destruct (write_tables_spec _ _ _ Hstep Hnp) as [(c & _ & -> & _)|(? & ? & ? & ? & _ & _ & _ & _ & _ & _ & _ & _ & _ & ->)]; reflexivity.
+  - left. apply (write_data_frame _ _ _ _ Hstep Hnp).
+  - pinj Hstep. left; reflexivity.
+Qed.
+
+Lemma emission_version_le s s' pkts : ver_fresh s -> ver_wf (ms_pmt_version s) -> emission s s' pkts ->
+  wrappingCounter_value (ms_pmt_version s') <= 31.
+Proof.
+  intros Hf Hv (ppay & mpay & rest & _ & _ & _ & Hpcr & _ & E2 & _).
+  destruct (ver_next (ms_pmt_version s) (ms_pmt_updated s) Hv) as (_ & Hnv & Hnle). rewrite E2.
+  destruct (ms_pmt_updated s) eqn:Eu; [apply Hnle; reflexivity|].
+  cbn [next_version fst]. destruct Hf as [Hf|[Hf|Hf]]; [congruence|exact Hf|]. rewrite Hf in Hpcr. discriminate Hpcr.
+Qed.
+
+Lemma step_ver_fresh s o s' p : ms_inv s -> ver_inv s -> ver_fresh s -> mux_step_part s o = (s', p) -> pa_res p <> Panic ->
+  op_entry_ok o -> ver_fresh s'.
+Proof.
+  intros Hinv [_ Hv] Hf Hstep Hnp Hen.
+  destruct (step_emission _ _ _ _ Hinv Hstep Hnp Hen) as (_ & [(Hem & _)|((_ & _ & E2 & _ & E4) & _)]).
+  - right; left. eapply emission_version_le; eauto.
+  - destruct (step_streams _ _ _ _ Hstep Hnp) as [Hs|Hs]; [|left; exact Hs].
+    destruct Hf as [Hf|[Hf|Hf]].
+    + left. rewrite E4, Hf. reflexivity.
+    + right; left. rewrite E2. exact Hf.
+    + right; right. rewrite Hs. exact Hf.
+Qed.
+
+Lemma emissions_rule0 : forall ops s ch, ms_inv s -> ver_inv s -> ver_fresh s ->
+  no_panic (snd (mux_run_parts s ops)) -> Forall op_entry_ok ops -> version_rule (emissions s ops ch).
+Proof.
+  induction ops as [|o r IH]; intros s ch Hinv Hver Hfr Hnp Hen; [exact I|].
+  rewrite mux_run_parts_cons in Hnp. cbn [snd] in Hnp. cbn [emissions].
+  inversion Hnp as [|x xs Hp Hnp']; subst x xs. inversion Hen as [|y ys Ho Hen']; subst y ys.
+  destruct (mux_step_part s o) as [s1 p] eqn:E. cbn [fst snd] in *.
+  pose proof (step_inv _ _ _ _ Hinv E Hp Ho) as Hinv1. pose proof (step_ver_inv _ _ _ _ Hinv Hver E Hp Ho) as Hver1.
+  pose proof (step_ver_fresh _ _ _ _ Hinv Hver Hfr E Hp Ho) as Hfr1.
+  destruct (step_emission _ _ _ _ Hinv E Hp Ho) as (_ & [(Hem & Hcc & _)|((Hst & _) & _)]).
+  - pose proof (emission_version_le _ _ _ Hfr (proj2 Hver) Hem) as Hle.
+    destruct Hem as (ppay & mpay & rest & Hpk & _ & _ & _ & E1 & E2 & E3 & E4 & _).
+    rewrite Hpk, table_packet_pids. apply emissions_rule; try assumption; reflexivity.
+  - rewrite Hst. apply IH; assumption.
+Qed.
+
+Theorem version_rule_thm period ops :
+  no_panic (snd (mux_run_parts (new_muxer period) ops)) -> Forall op_entry_ok ops ->
+  version_rule (emissions (new_muxer period) ops false).
+Proof.
+  intros Hnp Hen. apply emissions_rule0; try assumption.
+  - apply new_muxer_inv.
+  - split; cbn; unfold ver_wf, version_wrap; cbn; lia.
+  - right; right. reflexivity.
 Qed.
